@@ -257,9 +257,10 @@ Lemma rfind_ch_okr s ch pos : Inv L s -> pos < M64 -> okr (rfind_ch L s ch pos).
 Proof.
   intros (Hb & Hl & Hz) Hp. unfold rfind_ch. cbv zeta. destruct HL as [HL1 HL2].
   destruct (N.ltb_spec (len s) (pos +! 1)); cbn [orb]; [apply okr_ok|].
-  destruct (len s =? 0); cbn [orb]; [apply okr_ok|].
+  destruct (N.eqb_spec (len s) 0); cbn [orb]; [apply okr_ok|].
   destruct (N.eqb_spec pos NPOS).
-  - rewrite add64_small by (unfold M64 in *; lia).
+  - rewrite sub64_small by (unfold M64 in *; lia).
+    rewrite add64_small by (unfold M64 in *; lia).
     apply scan_down_okr; rewrite ?fuel_val; try (unfold M64 in *; lia).
     intros j Hj. apply okr_bind; [apply rd_okr; lia|intros; apply okr_ok].
   - assert (pos + 1 < M64) by (unfold NPOS, M64 in *; lia).
